@@ -229,6 +229,12 @@ func (u *Unit) writeOnceCell(a *ssa.Alloc) bool {
 				if x.Val == v || x.Addr != v {
 					return false
 				}
+				// only the initialisation counts: a store in the declaring function, in the block of the declaration
+				// (`var x T` is initialised by the allocation itself: a later store, or one in a closure, is a second
+				// assignment)
+				if depth > 0 || x.Block() != a.Block() {
+					return false
+				}
 				stores++
 			case *ssa.MakeClosure:
 				fn, ok := x.Fn.(*ssa.Function)
